@@ -18,8 +18,10 @@
                         ignore_exc - raises an OSError-class error or MemcacheError: never a KeyError/ValueError of
                         the failover tables (Proofs/C13Escapes.v, the invariant held for all servers at once)
      the others         the per-call decision rules and bookkeeping facts
-   PARTIAL: recovery of the original placement within two dead_timeout periods is checked by
-   the search on the real class (oracle windows_ok on the real contact log, blip episodes, random long histories). *)
+     c13_revival, c13_rotation_restored   recovery: the call that finds the check due and every evicted server out for more
+                        than dead_timeout empties the eviction table, and whenever that table is empty the rotation is
+                        exactly the set of servers the client started with
+   The search on the real class runs the same oracle and clauses (blip episodes, random long histories, recovery probes). *)
 From Coq Require Import ZArith List Bool Lia.
 From PM Require Import Lib.Py Model.Hash Spec.Failover Proofs.C12Proof Proofs.C13Proof Proofs.C13Windows Proofs.C13Oracle Proofs.C13Escapes.
 Import ListNotations.
@@ -93,7 +95,7 @@ Theorem c13_windows : forall (route : list server -> dyn -> exc (option server))
              (contacts_chrono sv (h_log (snd (run_hops route c ops (init_hstate servers t0 times outs))))) = true.
 Proof.
   intros route c Hr Ha Ht sv servers t0 times outs ops Hm Ho. apply log_ok_windows.
-  apply (windows_hold route c Hr Ha Ht sv (in_rotation_at_start sv servers t0 times outs) servers t0 times outs ops Hm Ho). intros X. exact X.
+  apply (windows_hold route c Hr Ha Ht sv (in_rotation_at_start sv servers t0 times outs) servers t0 times outs ops Hm Ho). reflexivity.
 Qed.
 Print Assumptions c13_windows.
 
@@ -106,7 +108,7 @@ Theorem c13_evictions : forall (route : list server -> dyn -> exc (option server
   evictions_ok c sv (h_log (snd (run_hops route c ops (init_hstate servers t0 times outs)))).
 Proof.
   intros route c Hr Ha Ht sv servers t0 times outs ops Hm Ho. apply log_ok_evictions.
-  apply (windows_hold route c Hr Ha Ht sv (in_rotation_at_start sv servers t0 times outs) servers t0 times outs ops Hm Ho). intros X. exact X.
+  apply (windows_hold route c Hr Ha Ht sv (in_rotation_at_start sv servers t0 times outs) servers t0 times outs ops Hm Ho). reflexivity.
 Qed.
 Print Assumptions c13_evictions.
 
@@ -122,7 +124,7 @@ Theorem c13_never_failed : forall (route : list server -> dyn -> exc (option ser
   (in_rotation_at_start sv servers t0 times outs = true -> sv_mem (h_nodes s) sv = true).
 Proof.
   intros route c Hr Ha Ht sv servers t0 times outs ops Hm Ho. cbn zeta.
-  destruct (history_inv route c Hr Ha Ht sv (in_rotation_at_start sv servers t0 times outs) servers t0 times outs ops Hm Ho (fun X => X)) as (_ & _ & _ & Cs).
+  destruct (history_inv route c Hr Ha Ht sv (in_rotation_at_start sv servers t0 times outs) servers t0 times outs ops Hm Ho eq_refl) as (_ & _ & _ & Cs & _).
   exact Cs.
 Qed.
 Print Assumptions c13_never_failed.
@@ -141,9 +143,34 @@ Theorem c13_escapes : forall (route : list server -> dyn -> exc (option server))
                               | Raise e => hc_ignore_exc c = false /\ (exn_isa e OSError = true \/ e = MemcacheError) end) rs.
 Proof.
   intros route c Hr Htot Ha Ht servers t0 times outs ops Hm Ho Hv.
-  apply (escapes_hold route c Hr Htot Ha Ht ops _ (init_all c servers t0 times outs Hm Ho) Hv).
+  apply (escapes_hold route c Hr Htot Ha Ht (h_nodes (init_hstate servers t0 times outs)) ops _ (init_all c servers t0 times outs Hm Ho) Hv).
 Qed.
 Print Assumptions c13_escapes.
+
+(* "once every server is healthy again, placement returns to the original within two dead_timeout periods of traffic":
+   (a) the call that finds the check due (more than dead_timeout since the last one) and every evicted server out for more
+       than dead_timeout empties the eviction table;
+   (b) in every history, whenever the eviction table is empty the rotation consists of exactly the servers the client
+       started with (as a set: by c11_order placement does not depend on the order), and an evicted server is always one
+       of them.
+   The check moves _last_dead_check_time only to the time of a call, so with calls arriving a server evicted at time D
+   meets (a) at the first call after D + 2 * dead_timeout at the latest. *)
+Theorem c13_revival : forall c (s : hstate) t rest, h_time s = t :: rest -> t - h_last_check s > hc_dead_timeout c ->
+  (forall x td, In (x, td) (h_dead s) -> t - td > hc_dead_timeout c) -> h_dead (snd (retry_dead c s)) = [].
+Proof. exact C13Windows.retry_dead_recovers. Qed.
+Print Assumptions c13_revival.
+Theorem c13_rotation_restored : forall (route : list server -> dyn -> exc (option server)) (c : hcfg),
+  (forall nodes k sv, route nodes k = Ok (Some sv) -> sv_mem nodes sv = true) ->
+  0 <= hc_retry_attempts c -> hc_retry_timeout c < hc_dead_timeout c ->
+  forall servers t0 times outs ops, mono t0 times -> Forall okout outs ->
+  let s := snd (run_hops route c ops (init_hstate servers t0 times outs)) in
+  h_dead s = [] -> forall sv, sv_mem (h_nodes s) sv = sv_mem (h_nodes (init_hstate servers t0 times outs)) sv.
+Proof.
+  intros route c Hr Ha Ht servers t0 times outs ops Hm Ho. cbn zeta. intros Hd sv.
+  apply (rotation_restored c (h_nodes (init_hstate servers t0 times outs))); [|exact Hd].
+  apply (all_inv_hold route c Hr Ha Ht). apply (init_all c servers t0 times outs Hm Ho).
+Qed.
+Print Assumptions c13_rotation_restored.
 
 (* non-vacuity: a history that drives one server through failure, a retry inside the window (no contact), retries after
    it, eviction with the last contact, revival and a further failure meets the premises; its contact log is the one shown *)
